@@ -19,12 +19,16 @@ import (
 	"encoding/json"
 	"errors"
 	"fmt"
+	"net"
 	"strings"
+	"sync"
 	"sync/atomic"
 	"testing"
 	"time"
 
+	pb "go.etcd.io/etcd/api/v3/etcdserverpb"
 	clientv3 "go.etcd.io/etcd/client/v3"
+	"google.golang.org/grpc"
 	metav1 "k8s.io/apimachinery/pkg/apis/meta/v1"
 
 	kafscalev1alpha1 "github.com/KafScale/platform/api/v1alpha1"
@@ -46,6 +50,9 @@ type c21Step struct {
 	Topic string     `json:"topic,omitempty"`
 	N     int32      `json:"n,omitempty"`
 	Crd   []c21Topic `json:"crd,omitempty"`
+	// publish only: broker steps committed between the operator's Get and its Txn;
+	// Inner[i] runs while the (i+1)-th Txn of this publish is held back
+	Inner []c21Step `json:"inner,omitempty"`
 }
 
 type c21Case struct {
@@ -67,6 +74,71 @@ func (k *c21KV) Get(ctx context.Context, key string, opts ...clientv3.OpOption) 
 		<-k.release
 	}
 	return k.KV.Get(ctx, key, opts...)
+}
+
+// In-process pass-through etcd KV endpoint for the operator: PublishMetadataSnapshot
+// dials its own client from an endpoint list, so the harness gives it this proxy's
+// address.  Range/Put/DeleteRange/Compact are forwarded unchanged; a Txn first calls
+// the armed hook (with the 1-based number of the Txn since arming), which lets the
+// schedule commit a broker operation between the operator's Get and its Txn.
+type c21Proxy struct {
+	pb.UnimplementedKVServer
+	kv   pb.KVClient
+	addr string
+	mu   sync.Mutex
+	hook func(n int)
+	txns []bool // Succeeded of every Txn since arming
+}
+
+func (p *c21Proxy) Range(ctx context.Context, r *pb.RangeRequest) (*pb.RangeResponse, error) {
+	return p.kv.Range(ctx, r)
+}
+func (p *c21Proxy) Put(ctx context.Context, r *pb.PutRequest) (*pb.PutResponse, error) {
+	return p.kv.Put(ctx, r)
+}
+func (p *c21Proxy) DeleteRange(ctx context.Context, r *pb.DeleteRangeRequest) (*pb.DeleteRangeResponse, error) {
+	return p.kv.DeleteRange(ctx, r)
+}
+func (p *c21Proxy) Compact(ctx context.Context, r *pb.CompactionRequest) (*pb.CompactionResponse, error) {
+	return p.kv.Compact(ctx, r)
+}
+func (p *c21Proxy) Txn(ctx context.Context, r *pb.TxnRequest) (*pb.TxnResponse, error) {
+	p.mu.Lock()
+	n := len(p.txns) + 1
+	h := p.hook
+	p.mu.Unlock()
+	if h != nil {
+		h(n)
+	}
+	resp, err := p.kv.Txn(ctx, r)
+	p.mu.Lock()
+	p.txns = append(p.txns, err == nil && resp.Succeeded)
+	p.mu.Unlock()
+	return resp, err
+}
+func (p *c21Proxy) arm(h func(n int)) {
+	p.mu.Lock()
+	p.hook, p.txns = h, nil
+	p.mu.Unlock()
+}
+func (p *c21Proxy) disarm() []bool {
+	p.mu.Lock()
+	defer p.mu.Unlock()
+	p.hook = nil
+	return p.txns
+}
+
+func c21StartProxy(t *testing.T, cli *clientv3.Client) *c21Proxy {
+	lis, err := net.Listen("tcp", "127.0.0.1:0")
+	if err != nil {
+		t.Fatalf("proxy listen: %v", err)
+	}
+	p := &c21Proxy{kv: clientv3.RetryKVClient(cli), addr: lis.Addr().String()}
+	srv := grpc.NewServer()
+	pb.RegisterKVServer(srv, p)
+	go func() { _ = srv.Serve(lis) }()
+	t.Cleanup(srv.Stop)
+	return p
 }
 
 type c21Snap []c21Topic
@@ -144,8 +216,9 @@ type c21Obs struct {
 }
 
 type c21Env struct {
-	endpoints []string
+	endpoints []string // the proxy in front of the embedded etcd (operator side)
 	cli       *clientv3.Client
+	proxy     *c21Proxy
 }
 
 type c21Run struct {
@@ -215,15 +288,54 @@ func c21Exec(env *c21Env, cs c21Case) (res c21Run) {
 		acks = keep
 	}
 	writers := map[int]bool{}
-	for si, st := range cs.Steps {
+	// finish one observation group: state after it, oracle verdict, classification
+	observe := func(o c21Obs, culprit, where string, etcdBefore c21Snap) bool {
+		if len(writers) > 1 {
+			res.tags["two-brokers-wrote"] = true
+		}
+		o.etcd, o.present = readEtcd()
+		for i := range stores {
+			o.locals = append(o.locals, local(i))
+		}
+		if res.harness != "" {
+			return false
+		}
+		o.acksOK = true
+		var lost []string
+		for _, a := range acks {
+			if !o.present || !c21Has(o.etcd, a.t, a.n) {
+				o.acksOK = false
+				lost = append(lost, fmt.Sprintf("%s/%d", a.t, a.n))
+			}
+		}
+		if !o.derived {
+			res.tags["non-derived-broker-put"] = true
+		}
+		res.obs = append(res.obs, o)
+		if !o.acksOK && res.fail == "" {
+			if culprit == "" {
+				culprit = "acked-topic-lost-by-derived-broker-put"
+			}
+			res.key = culprit
+			res.fail = fmt.Sprintf("%s: acknowledged and not deleted %s missing from the etcd snapshot %v (before: %v)",
+				where, strings.Join(lost, ","), o.etcd, etcdBefore)
+		}
+		return true
+	}
+	var step func(si int, st c21Step, inner bool) bool
+	step = func(si int, st c21Step, inner bool) bool {
 		b := ((st.B % cs.Brokers) + cs.Brokers) % cs.Brokers
 		etcdBefore, presentBefore := readEtcd()
 		if res.harness != "" {
-			return
+			return false
 		}
 		var o c21Obs
 		o.derived = true
 		culprit := ""
+		where := fmt.Sprintf("step %d (%s broker %d %q %d)", si, st.Op, b, st.Topic, st.N)
+		if inner {
+			where = fmt.Sprintf("step %d, between the operator's Get and Txn (%s broker %d %q %d)", si, st.Op, b, st.Topic, st.N)
+		}
 		fresh := func() bool { return !presentBefore || c21Eq(local(b), etcdBefore) }
 		switch st.Op {
 		case "create":
@@ -268,6 +380,9 @@ func c21Exec(env *c21Env, cs c21Case) (res c21Run) {
 				res.tags["grow"] = true
 			}
 		case "grow_race":
+			if inner {
+				return true
+			}
 			// refreshSnapshot parked at its Get (holding persistMu), CreatePartitions runs
 			// its local part and waits for persistMu, then the refresh completes
 			kvs[b].hold.Store(true)
@@ -277,7 +392,7 @@ func c21Exec(env *c21Env, cs c21Case) (res c21Run) {
 			case <-kvs[b].reached:
 			case <-time.After(5 * time.Second):
 				res.harness = "refresh did not reach its Get"
-				return
+				return false
 			}
 			growDone := make(chan error, 1)
 			go func() { growDone <- stores[b].CreatePartitions(ctx, st.Topic, st.N) }()
@@ -292,7 +407,7 @@ func c21Exec(env *c21Env, cs c21Case) (res c21Run) {
 					break wait
 				case <-deadline:
 					res.harness = "CreatePartitions neither failed nor grew the local copy"
-					return
+					return false
 				default:
 					if c21Has(local(b), st.Topic, st.N) {
 						break wait
@@ -306,14 +421,14 @@ func c21Exec(env *c21Env, cs c21Case) (res c21Run) {
 			kvs[b].release <- struct{}{}
 			if err := <-refDone; err != nil {
 				res.harness = "refresh: " + err.Error()
-				return
+				return false
 			}
 			if !early {
 				select {
 				case gerr = <-growDone:
 				case <-time.After(5 * time.Second):
 					res.harness = "CreatePartitions stuck"
-					return
+					return false
 				}
 			}
 			o.code = c21Code(gerr)
@@ -332,6 +447,9 @@ func c21Exec(env *c21Env, cs c21Case) (res c21Run) {
 			o.code = c21Code(err)
 			o.events = []string{fmt.Sprintf("BRefresh %d%%nat", b)}
 		case "publish":
+			if inner {
+				return true
+			}
 			one := int32(1)
 			cluster := &kafscalev1alpha1.KafscaleCluster{ObjectMeta: metav1.ObjectMeta{Name: "c", Namespace: "ns"}}
 			cluster.Spec.Brokers.Replicas = &one
@@ -342,48 +460,75 @@ func c21Exec(env *c21Env, cs c21Case) (res c21Run) {
 					Spec: kafscalev1alpha1.KafscaleTopicSpec{ClusterRef: "c", Partitions: ct.N}})
 				crd = append(crd, fmt.Sprintf("(%s, %s)", cqStr(ct.Name), cqZ(int64(ct.N))))
 			}
+			// model events of the operator since the last observation
+			opEvents := []string{"OStart " + cqList(crd), "OGet"}
+			hookOK := true
+			hooked := 0
+			env.proxy.arm(func(n int) {
+				if n > len(st.Inner) || !hookOK {
+					return
+				}
+				if n > 1 {
+					opEvents = append(opEvents, "OTxn", "OGet") // the previous Txn lost; next attempt has read
+				}
+				// the operator has read; close its group, then commit the broker step
+				g := c21Obs{events: opEvents, derived: true}
+				opEvents = nil
+				hooked = n
+				if !observe(g, "operator-publish-loses-acked-topic", where, etcdBefore) || !step(si, st.Inner[n-1], true) {
+					hookOK = false
+				}
+				etcdBefore, _ = readEtcd() // what the held-back Txn is about to overwrite
+			})
 			err := PublishMetadataSnapshot(ctx, env.endpoints, BuildClusterMetadata(cluster, topics))
-			if err != nil {
+			txns := env.proxy.disarm()
+			if !hookOK {
+				return false
+			}
+			if len(txns) == 0 {
+				res.harness = fmt.Sprintf("publish made no Txn (err=%v)", err)
+				return false
+			}
+			// Txn number `hooked` (or 1 when no hook ran) has not been emitted yet
+			first := hooked
+			if first == 0 {
+				first = 1
+			}
+			for k := first; k <= len(txns); k++ {
+				if k > first {
+					opEvents = append(opEvents, "OGet")
+				}
+				opEvents = append(opEvents, "OTxn")
+			}
+			switch {
+			case err == nil:
+				o.code = 0
+			case strings.Contains(err.Error(), "snapshot update conflict"):
+				o.code = 1
+				res.tags["publish-gave-up-after-5-conflicts"] = true
+			default:
 				o.code = 9
 			}
-			o.events = []string{"OStart " + cqList(crd), "OGet", "OTxn"}
+			o.events = opEvents
 			culprit = "operator-publish-loses-acked-topic"
 			res.tags["publish"] = true
 			if len(writers) > 0 {
 				res.tags["publish-after-broker-write"] = true
 			}
+			if hooked > 0 {
+				res.tags["broker-step-between-operator-get-and-txn"] = true
+			}
+			if len(txns) > 1 {
+				res.tags["publish-conflict-retry"] = true
+			}
 		default:
-			continue
+			return true
 		}
-		if len(writers) > 1 {
-			res.tags["two-brokers-wrote"] = true
-		}
-		o.etcd, o.present = readEtcd()
-		for i := range stores {
-			o.locals = append(o.locals, local(i))
-		}
-		if res.harness != "" {
+		return observe(o, culprit, where, etcdBefore)
+	}
+	for si, st := range cs.Steps {
+		if !step(si, st, false) {
 			return
-		}
-		o.acksOK = true
-		var lost []string
-		for _, a := range acks {
-			if !o.present || !c21Has(o.etcd, a.t, a.n) {
-				o.acksOK = false
-				lost = append(lost, fmt.Sprintf("%s/%d", a.t, a.n))
-			}
-		}
-		if !o.derived {
-			res.tags["non-derived-broker-put"] = true
-		}
-		res.obs = append(res.obs, o)
-		if !o.acksOK && res.fail == "" {
-			if culprit == "" {
-				culprit = "acked-topic-lost-by-derived-broker-put"
-			}
-			res.key = culprit
-			res.fail = fmt.Sprintf("step %d (%s broker %d %q %d): acknowledged and not deleted %s missing from the etcd snapshot %v (before the step: %v)",
-				si, st.Op, b, st.Topic, st.N, strings.Join(lost, ","), o.etcd, etcdBefore)
 		}
 	}
 	// quiescence: every broker refreshes; its Metadata() must be the etcd snapshot
@@ -477,6 +622,21 @@ func c21Gen(r *vRand) c21Case {
 				used[nm] = true
 				st.Crd = append(st.Crd, c21Topic{nm, int32(r.Range(0, 6))})
 			}
+			if r.Chance(45) { // broker steps committed between the operator's Get and Txn (each conflict costs its 200 ms back-off)
+				for k := r.Range(1, 2); k > 0; k-- {
+					ib := r.Intn(cs.Brokers)
+					switch y := r.Intn(10); {
+					case y < 5:
+						st.Inner = append(st.Inner, c21Step{Op: "create", B: ib, Topic: pick(), N: int32(r.Range(1, 6))})
+					case y < 8:
+						st.Inner = append(st.Inner, c21Step{Op: "grow", B: ib, Topic: pick(), N: int32(r.Range(1, 9))})
+					case y < 9:
+						st.Inner = append(st.Inner, c21Step{Op: "delete", B: ib, Topic: pick()})
+					default:
+						st.Inner = append(st.Inner, c21Step{Op: "refresh", B: ib})
+					}
+				}
+			}
 			cs.Steps = append(cs.Steps, st)
 		}
 	}
@@ -485,14 +645,15 @@ func c21Gen(r *vRand) c21Case {
 
 func TestVerifC21(t *testing.T) {
 	t.Setenv(operatorEtcdSilenceLogsEnv, "true")
-	rep := vNewReport("C21", "generated schedules (3-12 steps) over 1-3 real EtcdStores (no watcher; refresh is a step) and the real operator publish path on one embedded etcd: CreateTopic/CreatePartitions/DeleteTopic on a broker, refresh of a broker, CreatePartitions with a refresh of the same broker between local growth and put, operator publish from 1-3 topic resources; a case is non-trivial when two brokers wrote, or the operator published after a broker write, or a refresh ran inside a CreatePartitions; distinct = distinct canonical schedule")
+	rep := vNewReport("C21", "generated schedules (3-12 steps) over 1-3 real EtcdStores (no watcher; refresh is a step) and the real operator publish path on one embedded etcd: CreateTopic/CreatePartitions/DeleteTopic on a broker, refresh of a broker, CreatePartitions with a refresh of the same broker between local growth and put, operator publish from 1-3 topic resources, optionally with 1-2 broker steps committed between the operator's Get and its Txn (through a pass-through gRPC KV proxy that holds the Txn back), incl. the conflict retries; a case is non-trivial when two brokers wrote, or the operator published after a broker write, or a refresh ran inside a CreatePartitions, or a broker step ran between an operator Get and Txn; distinct = distinct canonical schedule")
 	endpoints := testutil.StartEmbeddedEtcd(t)
 	cli, err := clientv3.New(clientv3.Config{Endpoints: endpoints, DialTimeout: 5 * time.Second})
 	if err != nil {
 		t.Fatalf("etcd client: %v", err)
 	}
 	defer cli.Close()
-	env := &c21Env{endpoints: endpoints, cli: cli}
+	proxy := c21StartProxy(t, cli)
+	env := &c21Env{endpoints: []string{proxy.addr}, cli: cli, proxy: proxy}
 	var coq, jsons []string
 	runOne := func(cs c21Case, sample bool) {
 		run := c21Exec(env, cs)
@@ -500,7 +661,7 @@ func TestVerifC21(t *testing.T) {
 		if run.harness != "" {
 			t.Fatalf("harness problem in case %s: %s", canon, run.harness)
 		}
-		nt := run.tags["two-brokers-wrote"] || run.tags["publish-after-broker-write"] || run.tags["grow-with-refresh-inside"]
+		nt := run.tags["two-brokers-wrote"] || run.tags["publish-after-broker-write"] || run.tags["grow-with-refresh-inside"] || run.tags["broker-step-between-operator-get-and-txn"]
 		rep.Count(string(canon), nt)
 		for tg := range run.tags {
 			rep.Hist(tg)
@@ -541,6 +702,17 @@ func TestVerifC21(t *testing.T) {
 			{Brokers: 1, Steps: []c21Step{{Op: "create", B: 0, Topic: "x", N: 3}, {Op: "grow", B: 0, Topic: "x", N: 6}, {Op: "publish", Crd: []c21Topic{{"x", 3}}}}},
 			{Brokers: 2, Steps: []c21Step{{Op: "publish", Crd: []c21Topic{{"x", 3}, {"y", 2}}}, {Op: "refresh", B: 0}, {Op: "grow", B: 0, Topic: "x", N: 5}, {Op: "refresh", B: 1}, {Op: "create", B: 1, Topic: "z", N: 1}, {Op: "publish", Crd: []c21Topic{{"y", 2}, {"x", 3}}}}},
 		}
+		corpus = append(corpus,
+			// a broker CreateTopic / CreatePartitions commits between the operator's Get and its Txn:
+			// the Txn must lose (ModRevision guard) and the retry must keep the broker's change
+			c21Case{Brokers: 1, Steps: []c21Step{{Op: "create", B: 0, Topic: "x", N: 3}, {Op: "publish", Crd: []c21Topic{{"x", 3}},
+				Inner: []c21Step{{Op: "create", B: 0, Topic: "y", N: 2}}}}},
+			c21Case{Brokers: 2, Steps: []c21Step{{Op: "publish", Crd: []c21Topic{{"x", 3}}}, {Op: "refresh", B: 1}, {Op: "publish", Crd: []c21Topic{{"x", 3}, {"w", 1}},
+				Inner: []c21Step{{Op: "grow", B: 1, Topic: "x", N: 7}, {Op: "create", B: 1, Topic: "y", N: 2}}}}},
+			// five conflicts in a row: the publish gives up, nothing is overwritten
+			c21Case{Brokers: 1, Steps: []c21Step{{Op: "create", B: 0, Topic: "x", N: 1}, {Op: "publish", Crd: []c21Topic{{"x", 1}},
+				Inner: []c21Step{{Op: "create", B: 0, Topic: "t1", N: 1}, {Op: "create", B: 0, Topic: "t2", N: 1}, {Op: "create", B: 0, Topic: "t3", N: 1}, {Op: "create", B: 0, Topic: "t4", N: 1}, {Op: "create", B: 0, Topic: "t5", N: 1}}}}},
+		)
 		for _, cs := range corpus {
 			runOne(cs, false)
 		}
